@@ -41,6 +41,11 @@ def thread_ops(draw, t):
     ops.append(["init", 300 + t])
     for _ in range(draw(st.integers(0, 2))):
         ops.append(["require", draw(st.sampled_from(["nosv", "nanos6", "mpi", "tampi"])), draw(st.sampled_from(["1.0.0", "2.0.0", "1.1.0"]))])
+    if draw(st.integers(0, 3)) == 0:
+        # many requirements in a row, by every thread that draws this, right after the common start:
+        # version strings are parsed concurrently
+        for k in range(draw(st.integers(20, 60))):
+            ops.append(["require", "mdl%02d" % (k % 17), "%d.%d.%d" % (1 + t, k, t)])
     for i in range(draw(st.integers(0, 3))):
         ops.append(["cpu", 10 * t + i, 100 * t + i])
     if draw(st.integers(0, 2)) == 0:
